@@ -315,8 +315,35 @@ def run_tier_a(prop: str, harnesses, jobs: int = 0):
     "reachability_probes": cover_total, "reachable": cover_ok,
     "samples": samples, "rewrites_applied_to_source": loader.REWRITES, "rewrite_crosscheck": xres,
     "tier_a_wall_s": round(time.time() - t0, 2),
+    "assume_statements_in_harnesses": scan_assumes(harnesses),
   }
   return cov, findings, undecided, errors
+
+
+def scan_assumes(harnesses):
+  """mechanical scan (AST) of the modules that define the harnesses, plus contracts/callee.py, for `assume(...)` calls: every one is a
+  precondition / a restriction of the quantifier domain that the verifier does not check; listed so that none goes unreported"""
+  import ast
+  files = {os.path.join(VERIF, "contracts", "callee.py"), os.path.join(VERIF, "pyvc", "restub.py")}
+  for h in harnesses:
+    code = getattr(h.run, "__code__", None)
+    if code is not None and code.co_filename.startswith(VERIF):
+      files.add(code.co_filename)
+  out = []
+  for fn in sorted(files):
+    try:
+      src = open(fn, encoding="utf-8").read()
+      tree = ast.parse(src)
+    except (OSError, SyntaxError):
+      continue
+    lines = src.splitlines()
+    for node in ast.walk(tree):
+      if isinstance(node, ast.Call):
+        f = node.func
+        name = f.id if isinstance(f, ast.Name) else f.attr if isinstance(f, ast.Attribute) else None
+        if name == "assume":
+          out.append(f"{os.path.relpath(fn, VERIF)}:{node.lineno}: {lines[node.lineno - 1].strip()[:160]}")
+  return {"count": len(out), "statements": sorted(out)[:400]}
 
 
 # ---------------------------------------------------------------------------------------------------------------------
